@@ -40,6 +40,7 @@ class FnSpec:
         self.loops = {}        # ordinal -> {"binder":str|None, "clauses":[Clause]}
         self.hints = []        # (where:'after'|'before', anchor, text)
         self.assume = None     # reason
+        self.stub = False
         self.tags = []
         self.attrs = []
 
@@ -72,6 +73,7 @@ class Unit:
         self.trusted = []
         self.broadcast = []
         self.features = []
+        self.strip_prefixes = []   # crate names whose `name::module::` path prefixes are flattened (R11)
         self.renames = {}      # path -> {old identifier: new identifier}   (rule R15)
 
 
@@ -110,6 +112,8 @@ def parse_vspec(path):
                 u.name = rest
             elif d == "@uses":
                 u.props = rest.split()
+            elif d == "@stripprefix":
+                u.strip_prefixes += rest.split()
             elif d == "@feature":
                 u.features += rest.split()
             elif d == "@rename":
@@ -164,6 +168,15 @@ def parse_vspec(path):
                 nm, _, reason = rest.partition(":")
                 cur_fn = cur_item.fns.setdefault(nm.strip(), FnSpec(nm.strip()))
                 cur_fn.assume = reason.strip() or "assumed contract"
+                cur_loop = None
+            elif d == "@stub":
+                # assumed contract, signature only: the body is replaced by unimplemented!() (it
+                # uses constructs rustc cannot compile in the flat unit or Verus cannot parse in a
+                # signature, e.g. `mut self`); listed with the assumed contracts
+                nm, _, reason = rest.partition(":")
+                cur_fn = cur_item.fns.setdefault(nm.strip(), FnSpec(nm.strip()))
+                cur_fn.assume = "SIGNATURE ONLY - " + (reason.strip() or "assumed contract")
+                cur_fn.stub = True
                 cur_loop = None
             elif d == "@fn":
                 cur_fn = cur_item.fns.setdefault(rest, FnSpec(rest))
@@ -446,6 +459,9 @@ def build_item(u, spec, twin, gen):
         for t in itoks:
             if t.kind == "id" and t.text in ren:
                 red.add(t.s, t.e, ren[t.text], "R15")
+    for pref in u.strip_prefixes:
+        for mm in re.finditer(r"(?<![\w:])" + re.escape(pref) + r"::((?:[a-z_][a-z0-9_]*::)*)(?=[A-Za-z_])", m):
+            red.add(mm.start(), mm.end(), "", "R11")
     if "R13" not in skip:
         rules.r13_le_bytes(text, m, red)
     if "R14" not in skip:
@@ -517,6 +533,14 @@ def build_item(u, spec, twin, gen):
         ed.add(f.e, f.e, "/*@endfn*/", "S-marker", prio=5)
         clauses = list(fs.clauses) if fs else []
         do_twin = twin and f.has_body and not is_assumed
+        if fs and fs.stub and f.has_body:
+            ed.edits = [x for x in ed.edits if not (f.body_s <= x[0] and x[1] <= f.body_e and x[3] != "DROP")]
+            ed.add(f.body_s, f.body_e, "{ unimplemented!() }", "S-stub")
+            for t in itoks:
+                if f.params_open <= t.s < f.params_close and t.kind == "id" and t.text == "mut":
+                    nxt = text[t.e:t.e + 1]
+                    ed.edits = [x for x in ed.edits if not (t.s <= x[0] and x[1] <= t.e + 1)]
+                    ed.add(t.s, t.e + (1 if nxt == " " else 0), "", "S-stub")
         if fs and not fs.returns and any(re.search(r"\br\b", c.text) for c in fs.clauses):
             fs.returns = "r"
         if fs and fs.returns:
